@@ -294,3 +294,84 @@ for kind in ("list", "dict"):
 
                 c.setup = setup
                 con.cases.append(c)
+
+
+# ---- (1b) the operator TABLE of the ast.BinOp branch: which pair of methods each Python operator is dispatched to ----------------
+# Python data model: `a OP b` tries a.__op__(b), then b.__rop__(a) with the names below.  The branch is interpreted from the real
+# source for every binary operator of the ast, once with a left operand that implements the forward method and once with a left
+# operand that returns NotImplemented and a right operand that implements the REFLECTED method.
+BINOPS = {ast.Add: "add", ast.Sub: "sub", ast.Mult: "mul", ast.Div: "truediv", ast.FloorDiv: "floordiv", ast.Mod: "mod", ast.Pow: "pow", ast.LShift: "lshift",
+          ast.RShift: "rshift", ast.BitOr: "or", ast.BitXor: "xor", ast.BitAnd: "and", ast.MatMult: "matmul"}
+
+
+def table_spec(name, mode):
+    def spec(sx, self, inp):
+        it = sx.it
+        lhs, rhs = it.val_lhs, it.val_rhs
+        want = ("value-of", f"__{name}__", lhs, rhs) if mode == "forward" else ("value-of", f"__r{name}__", rhs, lhs)
+
+        def holds(res):
+            if not (isinstance(res, SObj) and res.kind is _Expr):
+                return False
+            r = res.fields["f_result"]
+            return isinstance(r, tuple) and len(r) == 4 and r[0] == want[0] and r[1] == want[1] and r[2] is want[2] and r[3] is want[3]
+
+        return C.Pred(holds, f"value of {want[1]}")
+
+    return spec
+
+
+def _table_apply(it, self, node):
+    return it.operand_exprs[node.id]
+
+
+# (the models above tell forward from reflected names by the prefix `__r`, which is wrong for __rshift__: here the reflected name
+#  of the operator under test is known)
+def _t_refl(it, name):
+    return name == f"__r{it.op_name}__"
+
+
+def _t_hasattr(it, typ, name):
+    return typ[1][1 if _t_refl(it, name) else 0] != "M"
+
+
+def _t_getattr(it, typ, name):
+    if typ[1][1 if _t_refl(it, name) else 0] == "M":
+        it.raise_(AttributeError, name)
+    return ("method", typ, name)
+
+
+def _t_subcall(it, self, fn, args, kwargs, noreturn=None):
+    _, typ, name = fn
+    how = typ[1][1 if _t_refl(it, name) else 0]
+    it.calls.append((name, args[0], args[1]))
+    if how == "N":
+        return SObj(_Expr, f_result=NotImplemented)
+    if how == "M":
+        raise AssertionError("method looked up although the type lacks it")
+    return SObj(_Expr, f_result=("value-of", name, args[0], args[1]))
+
+
+TABLE_MODELS = [(_static(ObjTraits, "hasattr"), _t_hasattr), (_static(ObjTraits, "getattr"), _t_getattr), (_static(ObjTraits, "gettype"), _gettype), (_static(ObjTraits, "get"), _get), (_Prep.subcall, _t_subcall)]
+
+
+con = contract("cohdl._compiler.frontend._prepare_ast:PrepareAst.apply_impl", PROPS)
+for op_cls, name in BINOPS.items():
+    for mode in ("forward", "reflected"):
+        node = ast.BinOp(left=ast.Name(id="l", ctx=ast.Load()), op=op_cls(), right=ast.Name(id="r", ctx=ast.Load()))
+        c = Case(f"binop-table:{op_cls.__name__},{mode}", [Built([], lambda env: SObj(_Prep, _last_apply_inp=None, _context=None), lambda a: "<self>", lambda a: None),
+                                                          Built([], (lambda n: lambda env: n)(node), lambda a: "<binop>", lambda a: None)], table_spec(name, mode))
+        c.native = False
+        c.may_reject = AssertionError  # an operator the subset does not support is rejected
+        c.models = TABLE_MODELS + [(_Prep.apply, _table_apply)]
+
+        def _setup(it, ctx, args, env, mode=mode, name=name):
+            kl, kr = ("IM", "MM") if mode == "forward" else ("NM", "MI")
+            it.op_name = name
+            it.calls = []
+            it.val_lhs = SObj(_Prep, f_kind=kl, f_tag="lhs")
+            it.val_rhs = SObj(_Prep, f_kind=kr, f_tag="rhs")
+            it.operand_exprs = {"l": SObj(_Expr, f_result=it.val_lhs), "r": SObj(_Expr, f_result=it.val_rhs)}
+
+        c.setup = _setup
+        con.cases.append(c)
